@@ -152,6 +152,12 @@ func (ph *peerHandler) startIfDisconnected() {
 	ph.mu.Lock()
 	defer ph.mu.Unlock()
 
+	if ph.ctx.Err() != nil {
+		// Stopped (see stop): never re-arm the reconnect timer, even if a
+		// notification that raced with stop gets here late.
+		return
+	}
+
 	if ph.reconnectTimer == nil && ph.host.Network().Connectedness(ph.peer) != network.Connected {
 		logger.Debugw("disconnected from peer", "peer", ph.peer)
 		// Always start with a short timeout so we can stagger things a bit.
